@@ -14,7 +14,7 @@ from ..common import Raw
 from ..dilmid import DilMidWorld, Open, Data, Close, Ack
 
 OBS_NAMES = ["InOrderOnce", "Goal", "OpensOnce", "NothingAfterLost", "DataInOrder", "IdsDisjoint", "UnexpectedRefused",
-             "WriteAfterCloseErrors", "NoInternal"]
+             "WriteAfterCloseErrors", "NoInternal", "CloseOnce"]
 
 # the application script of C10: operation k of the model is this (each produces exactly one record)
 SCRIPT = [("open", 1), ("write", 1), ("write", 1), ("open", 2), ("write", 2), ("close", 1), ("write", 2), ("close", 2),
@@ -142,7 +142,15 @@ class SubRun:
         self.openers = {}     # id -> opener protocol
         self.schedule = []
         self.errors = {}      # (id, end) -> [exception names]
+        self.calls = {}       # (id, end) -> [[write|close, ok|err]] in call order
+        self.closes_sent = {}  # (id, end) -> CLOSE records the Manager was asked to send
         self.scids = {"L": [], "F": []}
+        for sname, side in self.w.sides.items():
+            def send_close(scid, sname=sname, orig=side.m.send_close):
+                e = "o" if ("L" if scid % 2 == 1 else "F") == sname else "a"
+                self.closes_sent[(scid, e)] = self.closes_sent.get((scid, e), 0) + 1
+                return orig(scid)
+            side.m.send_close = send_close
 
     def end_proto(self, sid, e):
         if e == "o":
@@ -176,8 +184,10 @@ class SubRun:
                     p.transport.loseWriteConnection()
                 else:
                     p.transport.loseConnection()
+                self.calls.setdefault((sid, e), []).append(["write" if a == "AppWrite" else "close", "ok"])
             except Exception as ex:
                 self.errors.setdefault((sid, e), []).append(type(ex).__name__)
+                self.calls.setdefault((sid, e), []).append(["write" if a == "AppWrite" else "close", "err"])
         elif a == "Deliver":
             # one sequenced record towards side x (acks travel along)
             frm = "F" if x == "L" else "L"
@@ -272,7 +282,8 @@ def finish_sub(run, tid, expected):
             ev = [[x[0], x[1].decode() if len(x) > 1 else "-"] for x in p.log]
             other = run.end_proto(sid, "a" if e == "o" else "o")
             written = ["w%d%s%d" % (sid, "a" if e == "o" else "o", k) for k in range(run._writes.get((sid, "a" if e == "o" else "o"), 0))]
-            ends["%d%s" % (sid, e)] = {"ev": ev, "peerWrote": written, "errors": run.errors.get((sid, e), [])}
+            ends["%d%s" % (sid, e)] = {"ev": ev, "peerWrote": written, "errors": run.errors.get((sid, e), []),
+                                       "calls": run.calls.get((sid, e), []), "closesSent": run.closes_sent.get((sid, e), 0)}
             # a write after the local close must raise: probe every end that has closed locally
             if any(x[0] in ("lost",) for x in ev):
                 try:
@@ -293,7 +304,8 @@ def finish_sub(run, tid, expected):
 
 UNSET = Raw('[s \\in {"L","F"} |-> [given |-> FALSE, names |-> {}]]')
 EXPF = Raw('[s \\in {"L","F"} |-> IF s = "F" THEN [given |-> TRUE, names |-> {"a"}] ELSE [given |-> FALSE, names |-> {}]]')
-SUB_INV = ["OpensOnce", "NothingAfterLost", "DataInOrder", "IdsDisjoint", "UnexpectedRefused", "NoInternal"]
+SUB_INV = ["OpensOnce", "NothingAfterLost", "DataInOrder", "IdsDisjoint", "UnexpectedRefused", "NoInternal",
+           "WriteAfterCloseErrors", "CloseOnce"]
 SUB_CONFIGS = {
     "basic": (dict(Names={"a"}, Expected=UNSET, MaxOpens=1, MaxWrites=2, Half=False, Openers={"L"}), None, False),
     "expected": (dict(Names={"a", "u"}, Expected=EXPF, MaxOpens=1, MaxWrites=1, Half=False, Openers={"L"}), {"F": ["a"]}, False),
@@ -405,7 +417,7 @@ def run(prop, tier):
                             cov["drift"].append(dict(drift, tid=tid, config=name))
         verdicts = run_observer(wd, records)
     decides = {"C10": ["InOrderOnce", "Goal", "NoInternal"],
-               "C13": ["OpensOnce", "NothingAfterLost", "DataInOrder", "IdsDisjoint", "UnexpectedRefused", "WriteAfterCloseErrors", "NoInternal"]}[prop]
+               "C13": ["OpensOnce", "NothingAfterLost", "DataInOrder", "IdsDisjoint", "UnexpectedRefused", "WriteAfterCloseErrors", "NoInternal", "CloseOnce"]}[prop]
     failing = 0
     distinct = set()
     for rec in records:
